@@ -680,8 +680,14 @@ def _as_int(arr, i):
 
 
 def _np_truediv(x, y):
-    # numpy true division always yields float64
-    return to_real(x) / to_real(y) if not isinstance(x, SReal) and not isinstance(y, SReal) else x / y
+    # numpy true division always yields float64; a zero divisor gives inf/nan with a warning, never an exception,
+    # so no safety obligation is emitted (the quotient is then an unspecified real: z3's total division)
+    e = eng()
+    e.in_spec += 1
+    try:
+        return to_real(x) / to_real(y) if not isinstance(x, SReal) and not isinstance(y, SReal) else x / y
+    finally:
+        e.in_spec -= 1
 
 
 def _mk_int(zz):
